@@ -60,7 +60,10 @@ static void varintBitstreamSet(vbits *const dst, const size_t startBitOffset,
 
     /* This assert triggers if your 'val' is too big to be stored
      * using 'bitsPerValue' */
-    valueMask = (~0ULL >> (BITS_PER_SLOT - bitsPerValue));
+    /* low 'bitsPerValue' bits set, whatever the slot/value types are (with a
+     * slot narrower than 64 bits "~0ULL >> (BITS_PER_SLOT - bits)" truncates
+     * to all ones and neighbouring values get overwritten) */
+    valueMask = (vbitsVal)(~0ULL >> (64 - bitsPerValue));
     assert(0 == (~valueMask & val));
 
     if (lowDataBitPosition >= 0) {
@@ -95,7 +98,10 @@ static vbitsVal varintBitstreamGet(const vbits *const src,
     highDataBitPosition = BITS_PER_SLOT - (startBitOffset % BITS_PER_SLOT);
     lowDataBitPosition = highDataBitPosition - (int32_t)bitsPerValue;
 
-    valueMask = (~0ULL >> (BITS_PER_SLOT - bitsPerValue));
+    /* low 'bitsPerValue' bits set, whatever the slot/value types are (with a
+     * slot narrower than 64 bits "~0ULL >> (BITS_PER_SLOT - bits)" truncates
+     * to all ones and neighbouring values get overwritten) */
+    valueMask = (vbitsVal)(~0ULL >> (64 - bitsPerValue));
 
     if (lowDataBitPosition >= 0) {
         out = (in[0] >> lowDataBitPosition) & valueMask;
